@@ -158,6 +158,9 @@ type Options struct {
 	IdleTimeout time.Duration
 	// TimeAction adds the choice "@time" (let virtual time pass although operations are pending) at every step.
 	TimeAction bool
+	// Skip, if set, is asked before a prefix is executed; a skipped prefix is neither run nor expanded
+	// (used to step around a schedule that crashed the test process in an earlier attempt).
+	Skip func(prefix []string) bool
 	// BeforeExec is called with the prefix about to be executed (crash checkpointing).
 	BeforeExec func(prefix []string)
 	// TimeQuantum bounds how long one "@time" step lets operations stay pending (a stall); 0 = idle timeout.
@@ -179,6 +182,7 @@ type Stats struct {
 	MaxPending  int
 	ChoicePoint int64
 	DivergeInfo []string
+	Skipped     int64
 }
 
 var hookMu sync.Mutex
@@ -672,6 +676,10 @@ func Explore(t *testing.T, sc Scenario, opt Options, check func(x *Exec)) Stats 
 			break
 		}
 		var x *Exec
+		if opt.Skip != nil && opt.Skip(w.prefix) {
+			st.Skipped++
+			continue
+		}
 		if opt.BeforeExec != nil {
 			opt.BeforeExec(w.prefix)
 		}
